@@ -95,17 +95,19 @@ type PlanRun struct {
 	events []Event
 	gates  map[int]*gate
 	// guarded by logMu
-	released   bool
-	hang       bool
-	closed     bool
-	written    map[string]map[int]int // obj term -> status -> count
-	probes     []int
-	dirLog     []string
-	lateStarts int
-	lateEnds   int // an invocation logged a non-overrun End before its deadline, yet the engine recorded a timeout AFTER the deadline
-	startErr   string
-	startOK    int // Start calls that returned nil
-	raced      int // racing Start calls made (0 = one ordinary call)
+	released     bool
+	hang         bool
+	closed       bool
+	written      map[string]map[int]int // obj term -> status -> count
+	probes       []int
+	dirLog       []string
+	lateStarts   int
+	lateEnds     int // an invocation logged a non-overrun End before its deadline, yet the engine recorded a timeout AFTER the deadline
+	startErr     string
+	startOK      int  // Start calls that returned nil
+	raced        int  // racing Start calls made (0 = one ordinary call)
+	ctxCancelled bool // Start got a context that the harness cancelled afterwards
+	ctxCancelUs  int  // ... this long after Start returned
 }
 
 func (r *PlanRun) logLocked(e Event) {
